@@ -3898,17 +3898,20 @@ impl LineBuf {
 		#[cfg(vicut_verif)]
 		crate::verif::trace_cmd_begin(&cmd, &self.buffer, self.cursor.get());
 		let clear_redos = !cmd.is_undo_op() || cmd.verb.as_ref().is_some_and(|v| v.1.is_edit());
-		let is_char_insert = cmd.verb.as_ref().is_some_and(|v| v.1.is_char_insert());
+		// A typed character continues the open undo record; 'c', 'o' and 'O' open one for the text typed after them.
+		// Every other command, 'r' included, is an undoable change of its own.
+		let continues_insert = cmd.verb.as_ref().is_some_and(|v| matches!(v.1, Verb::InsertChar(_) | Verb::ReplaceChar(_)));
+		let opens_insert = cmd.verb.as_ref().is_some_and(|v| matches!(v.1, Verb::Change | Verb::InsertModeLineBreak(_)));
 		let is_line_motion = cmd.is_line_motion();
 		let is_undo_op = cmd.is_undo_op();
 		let edit_is_merging = self.undo_stack.last().is_some_and(|edit| edit.merging);
+		let undo_len_before = self.undo_stack.len();
 
 		// Merge character inserts into one edit
-		if edit_is_merging
-			&& cmd.verb.as_ref().is_none_or(|v| !v.1.is_char_insert()) {
-				if let Some(edit) = self.undo_stack.last_mut() {
-					edit.stop_merge();
-				}
+		if edit_is_merging && !continues_insert {
+			if let Some(edit) = self.undo_stack.last_mut() {
+				edit.stop_merge();
+			}
 		}
 
 		let ViCmd { register, verb, motion, flags, raw_seq: _ } = cmd;
@@ -4007,7 +4010,10 @@ impl LineBuf {
 			self.saved_col = None;
 		}
 
-		if is_char_insert {
+		// Only a record made by this command (or already open) takes the following characters: a 'c' that removed
+		// nothing must not reopen the record of an earlier change
+		let has_own_record = self.undo_stack.len() > undo_len_before || (continues_insert && edit_is_merging);
+		if (continues_insert || opens_insert) && has_own_record {
 			if let Some(edit) = self.undo_stack.last_mut() {
 				edit.start_merge();
 			}
